@@ -73,6 +73,24 @@ verus! {
             }
 //@end
 
+// ---- C14: the command comparison (warnings only) has no say in the verdict and cannot panic ----
+//@extract src/verifylib.rs fn:verify_all_steps_command_alignment props=C14,C08
+//@contract ret=r
+//@include contracts/command_alignment.rs
+//@before /for step in &layout\.steps/
+    proof { fact_string_ext(); fact_keyid_key_model(); }
+//@loop 1 iter=it1
+        invariant
+            forall|a: String, b: String| #![trigger a@, b@] a@ == b@ ==> a == b,
+            vstd::std_specs::hash::obeys_key_model::<String>(),
+            vstd::std_specs::hash::obeys_key_model::<KeyId>(),
+            it1.seq().len() == layout.steps@.len(),
+            forall|i: int| 0 <= i < it1.seq().len() ==> *(#[trigger] it1.seq()[i]) == layout.steps@[i],
+            forall|i: int| 0 <= i < it1.index() ==> link_files@.contains_key((#[trigger] layout.steps@[i]).name),
+//@loop 2 iter=it2
+            invariant true,
+//@end
+
 // ---- C13 ----
 //@include contracts/stage_specs2.rs
 // D18: `v.iter().min_by(|a, b| a.0.cmp(b.0))` (std contract: the minimum w.r.t. the comparator; None iff empty)
